@@ -4,10 +4,15 @@
 package pipe
 
 import (
+	"bytes"
 	"encoding/base64"
+	"net/http"
+	"net/http/httptest"
+
 	"encoding/json"
 	"errors"
 	"fmt"
+	"github.com/gorilla/mux"
 	"sort"
 	"strconv"
 	"strings"
@@ -27,6 +32,7 @@ import (
 	"github.com/trustbloc/sidetree-core-go/pkg/observer"
 	"github.com/trustbloc/sidetree-core-go/pkg/patch"
 	"github.com/trustbloc/sidetree-core-go/pkg/processor"
+	restdoc "github.com/trustbloc/sidetree-core-go/pkg/restapi/dochandler"
 	"github.com/trustbloc/sidetree-core-go/pkg/versions/1_0/doccomposer"
 	"github.com/trustbloc/sidetree-core-go/pkg/versions/1_0/doctransformer/didtransformer"
 	"github.com/trustbloc/sidetree-core-go/pkg/versions/1_0/docvalidator/didvalidator"
@@ -83,6 +89,8 @@ type Pipe struct {
 	contCh   chan struct{}
 	obs      *observer.Observer
 
+	// ViaREST routes submissions and resolutions through the real REST handlers (UpdateHandler / ResolveHandler)
+	ViaREST    bool
 	addFails   bool
 	casWriteKO bool
 	dupTxn     map[int]bool
@@ -108,6 +116,8 @@ func (noMetrics) AddUnpublishedOperationTime(time.Duration)  {}
 func (noMetrics) AddOperationToBatchTime(time.Duration)      {}
 func (noMetrics) GetCreateOperationResultTime(time.Duration) {}
 func (noMetrics) CASWriteSize(string, int)                   {}
+func (noMetrics) HTTPCreateUpdateTime(time.Duration)         {}
+func (noMetrics) HTTPResolveTime(time.Duration)              {}
 
 // ---- environment ----
 
@@ -499,13 +509,18 @@ func (p *Pipe) view(rr *document.ResolutionResult, err error) View {
 	if d, ok := rr.DocumentMetadata[document.DeactivatedProperty].(bool); ok {
 		v.Deact = d
 	}
-	if m, ok := rr.DocumentMetadata[document.MethodProperty].(document.Metadata); ok {
-		if s, ok := m[document.UpdateCommitmentProperty].(string); ok {
-			v.Uc = p.Keys.Abs(s)
-		}
-		if s, ok := m[document.RecoveryCommitmentProperty].(string); ok {
-			v.Rc = p.Keys.Abs(s)
-		}
+	var m map[string]interface{}
+	switch t := rr.DocumentMetadata[document.MethodProperty].(type) {
+	case document.Metadata:
+		m = t
+	case map[string]interface{}: // after a JSON round trip (REST)
+		m = t
+	}
+	if s, ok := m[document.UpdateCommitmentProperty].(string); ok {
+		v.Uc = p.Keys.Abs(s)
+	}
+	if s, ok := m[document.RecoveryCommitmentProperty].(string); ok {
+		v.Rc = p.Keys.Abs(s)
 	}
 	raw, _ := json.Marshal(rr.Document["verificationMethod"])
 	var vms []map[string]interface{}
@@ -560,7 +575,7 @@ func (p *Pipe) Exec(s Step, dids []int) error {
 		p.nsub++
 		p.ids[canonKey(req)] = p.nsub
 		p.addFails = s.A == "SubmitAddFails"
-		_, perr := p.handler.ProcessOperation(req, p.curver)
+		perr := p.submit(req)
 		p.addFails = false
 		if perr == nil {
 			switch s.K {
@@ -610,7 +625,7 @@ func (p *Pipe) Exec(s Step, dids []int) error {
 	case "ResolveAll":
 		views := map[string]View{}
 		for _, d := range dids {
-			views[strconv.Itoa(d)] = p.view(p.handler.ResolveDocument(p.DID(d)))
+			views[strconv.Itoa(d)] = p.view(p.resolve(p.DID(d)))
 		}
 		arr := make([]View, len(dids))
 		for i, d := range dids {
@@ -753,4 +768,39 @@ func (p *Pipe) SetVersion(v uint64) {
 	} else {
 		p.pc.cur = 0
 	}
+}
+
+// submit hands a request to intake: directly to the DocumentHandler or, with ViaREST, as an HTTP POST to the real
+// UpdateHandler (which takes the protocol version in force from the protocol client).
+func (p *Pipe) submit(req []byte) error {
+	if !p.ViaREST {
+		_, err := p.handler.ProcessOperation(req, p.curver)
+		return err
+	}
+	h := restdoc.NewUpdateHandler(p.handler, p.pc, noMetrics{})
+	rw := httptest.NewRecorder()
+	h.Update(rw, httptest.NewRequest(http.MethodPost, "/operations", bytes.NewReader(req)))
+	if rw.Code == http.StatusOK {
+		return nil
+	}
+	return fmt.Errorf("HTTP %d: %s", rw.Code, strings.TrimSpace(rw.Body.String()))
+}
+
+// resolve resolves a DID directly or, with ViaREST, through the real ResolveHandler (GET /identifiers/{id}).
+func (p *Pipe) resolve(did string) (*document.ResolutionResult, error) {
+	if !p.ViaREST {
+		return p.handler.ResolveDocument(did)
+	}
+	h := restdoc.NewResolveHandler(p.handler, noMetrics{})
+	rw := httptest.NewRecorder()
+	r := mux.SetURLVars(httptest.NewRequest(http.MethodGet, "/identifiers/"+did, nil), map[string]string{"id": did})
+	h.Resolve(rw, r)
+	if rw.Code != http.StatusOK {
+		return nil, fmt.Errorf("HTTP %d: %s", rw.Code, strings.TrimSpace(rw.Body.String()))
+	}
+	var rr document.ResolutionResult
+	if err := json.Unmarshal(rw.Body.Bytes(), &rr); err != nil {
+		return nil, err
+	}
+	return &rr, nil
 }
